@@ -3,6 +3,7 @@
 -/
 import PigeonVerif.Model.Mid
 import PigeonVerif.Properties.C12
+import PigeonVerif.Proofs.LROrder
 
 namespace PV
 
@@ -43,6 +44,68 @@ theorem C19_analysis_order_free (cfg : Cfg) (G : AGrammar) (o1 o2 : List String)
     (computeNullablesSorted cfg G o2).map (computeLeftRecursives cfg) := by
   unfold computeNullablesSorted
   rw [C19_sorted_order_invariant o1 o2 h]
+
+theorem C19_analysis_order_free_nullables (cfg : Cfg) (G : AGrammar) (o1 o2 : List String) (h : o1.Perm o2) :
+    computeNullablesSorted cfg G o1 = computeNullablesSorted cfg G o2 := by
+  unfold computeNullablesSorted
+  rw [C19_sorted_order_invariant o1 o2 h]
+
+/-- **C19 (c): the leader of a component does not depend on any iteration order.**  `findLeader` ranges over Go maps
+    three times (start vertices, successors in the path search, surviving candidates); in the model an iteration
+    order is the order of a list.  Any two enumerations of the same component (`SameMem`, same number of keys) over
+    adjacency structures with the same successor SETS (`SameSuccs`) choose the same leader, or both none. -/
+theorem C19_leader_choice_order_free {g1 g2 : Graph} {scc1 scc2 : List String} (hg : SameSuccs g1 g2)
+    (hs : SameMem scc1 scc2) (hl : scc1.length = scc2.length) : findLeader g1 scc1 = findLeader g2 scc2 :=
+  findLeader_order_free hg hs hl
+
+/-- **C19 (d): `ComputeLeftRecursives` is a function of the first graph as a set.**  Whatever order the map of the first
+    graph hands its keys out in (`verts2`), and whatever order every successor map is ranged over (`g2`), the
+    `leftRecursive` / `leader` marks left on EVERY rule and the verdict (no left recursion / left recursion / a component
+    without a leader) are those of the model's own enumeration — several components, several cycles, ties between
+    leader candidates included.  Proof: the loop has a closed form (`computeLRWith_closed_form`: a rule in a handled
+    component carries `markOf`, which only looks at its component and that component's leader), components are
+    equivalence classes, and (c). -/
+theorem C19_left_recursion_marks_order_free (cfg : Cfg) (G : AGrammar) (g2 : Graph) (verts2 : List String)
+    (h2 : GraphOK g2) (hs : SameSuccs (firstGraph cfg G) g2)
+    (hv : SameMem ((firstGraph cfg G).map (·.1)) verts2) :
+    computeLRWith g2 verts2 G = computeLeftRecursives cfg G :=
+  (computeLRWith_order_free (firstGraph_ok cfg G) h2 hs hv G).symm
+
+/-- (b) and (d) together: **the whole analysis** — nullable flags, first graph, marks, leader, verdict — is the same
+    for any order in which `ComputeNullables` receives the rule names and any enumeration of the vertices. -/
+theorem C19_analysis_is_a_function_of_the_grammar (cfg : Cfg) (G : AGrammar) (o1 o2 : List String) (h : o1.Perm o2)
+    (enum : AGrammar → List String)
+    (he : ∀ G', SameMem ((firstGraph cfg G').map (·.1)) (enum G')) :
+    (computeNullablesSorted cfg G o1).map (fun G' => computeLRWith (firstGraph cfg G') (enum G') G') =
+    (computeNullablesSorted cfg G o2).map (computeLeftRecursives cfg) := by
+  rw [C19_analysis_order_free_nullables cfg G o1 o2 h]
+  congr 1
+  funext G'
+  exact C19_left_recursion_marks_order_free cfg G' _ _ (firstGraph_ok cfg G') (fun _ => SameMem.refl _) (he G')
+
+/-- the hypotheses are satisfiable by something that is not the model's own order: the vertices in reverse -/
+example (cfg : Cfg) (G : AGrammar) :
+    computeLRWith (firstGraph cfg G) ((firstGraph cfg G).map (·.1)).reverse G = computeLeftRecursives cfg G :=
+  C19_left_recursion_marks_order_free cfg G _ _ (firstGraph_ok cfg G) (fun _ => SameMem.refl _)
+    (fun x => by simp)
+
+/-- … and a concrete instance evaluated by the kernel: a three-rule component with two cycles through `A`, a self-loop
+    and an isolated vertex, the adjacency lists and the vertex list reversed -/
+def marks (r : AGrammar × Verdict) : List (String × Bool × Bool) × Verdict :=
+  (r.1.map (fun x => (x.name, x.leftRecursive, x.leader)), r.2)
+
+def g5 : AGrammar :=
+  [{ name := "A", expr := .any }, { name := "B", expr := .any }, { name := "C", expr := .any },
+   { name := "D", expr := .any }, { name := "E", expr := .any }]
+
+example :
+    marks (computeLRWith [("A", ["B", "C"]), ("B", ["A"]), ("C", ["A"]), ("D", ["D"]), ("E", [])]
+      ["A", "B", "C", "D", "E"] g5) =
+    ([("A", true, true), ("B", true, false), ("C", true, false), ("D", true, true), ("E", false, false)], .ok true) ∧
+    marks (computeLRWith [("E", []), ("D", ["D"]), ("C", ["A"]), ("B", ["A"]), ("A", ["C", "B"])]
+      ["E", "D", "C", "B", "A"] g5) =
+    ([("A", true, true), ("B", true, false), ("C", true, false), ("D", true, true), ("E", false, false)], .ok true) := by
+  decide
 
 def cfgBeforeFixes : Cfg := { visitOperands := false, predNames := false, emptyClassNotNullable := false }
 def cfgNow : Cfg := { visitOperands := true, predNames := true, emptyClassNotNullable := true }
